@@ -206,6 +206,11 @@ func H_C19_ProbeNode() {
 	// environment 6: nothing answers and the TCP fallback's connection attempt hangs (crashed host, no RST)
 	env := vPick(7)
 	conf.DisableTcpPings = env < 4
+	if env < 4 && vPick(2) == 1 {
+		// the fallback is switched off for this peer only (per-node callback) instead of globally
+		conf.DisableTcpPings = false
+		conf.DisableTcpPingsForNode = func(string) bool { return true }
+	}
 	conf.IndirectChecks = vPick(2)
 	conf.ProbeTimeout = 500 * time.Millisecond
 	conf.ProbeInterval = time.Second
